@@ -414,6 +414,10 @@ fn dechunk(mut b: &[u8]) -> Option<Vec<u8>> {
         if b.len() < size.checked_add(2)? {
             return None;
         }
+        // The chunk data must be followed by CRLF; anything else is bad framing.
+        if &b[size..size + 2] != b"\r\n" {
+            return None;
+        }
         out.extend_from_slice(&b[..size]);
         b = &b[size + 2..];
     }
